@@ -731,7 +731,9 @@ type runner struct {
 	seenDiv map[string]bool
 	// site of the first divergence per subject
 	subjSite map[string]string
-	seq      int
+	// address -> site of the rolled-back transaction that derived/imported it
+	phantomSite map[string]string
+	seq         int
 }
 
 func subjectOf(q op) string {
@@ -1111,7 +1113,7 @@ func runHistory(e *env, in input) (*caseOut, error) {
 		return nil, err
 	}
 	defer func() { r.close(); os.Remove(path) }()
-	rn := &runner{e: e, w: w, r: r, heights: map[int32]bool{0: true}, names: 2, seenDiv: map[string]bool{}, subjSite: map[string]string{}}
+	rn := &runner{e: e, w: w, r: r, heights: map[int32]bool{0: true}, names: 2, seenDiv: map[string]bool{}, subjSite: map[string]string{}, phantomSite: map[string]string{}}
 	out := &caseOut{In: in, Oracle: []string{}, Findings: []finding{}, Tags: []string{}}
 
 	// initial state, as the implementation reports it
@@ -1141,6 +1143,13 @@ func runHistory(e *env, in input) (*caseOut, error) {
 				// that already diverged at a named site is a consequence of
 				// that divergence, not a new one
 				subj := subjectOf(e.Q)
+				// a phantom address may be probed for the first time long after
+				// the rolled-back transaction that left it in the cache
+				if k == "phantom_address" || k == "phantom_imported_address" {
+					if s0, ok := rn.phantomSite[fmt.Sprint(e.Q.Addr)]; ok {
+						site = s0
+					}
+				}
 				if strings.HasPrefix(site, "unexplained:") {
 					if s0, ok := rn.subjSite[subj]; ok {
 						site = s0
@@ -1223,6 +1232,33 @@ func runHistory(e *env, in input) (*caseOut, error) {
 			for i, o := range t.Ops {
 				if o.K == "next" && to.Outs[i].K == "addrs" {
 					rn.issued = append(rn.issued, to.Outs[i].Addrs...)
+				}
+			}
+		} else {
+			note := func(ref []uint32, site string) {
+				k := fmt.Sprint(ref)
+				if _, ok := rn.phantomSite[k]; !ok {
+					rn.phantomSite[k] = site
+				}
+			}
+			for i, o := range t.Ops {
+				switch {
+				case o.K == "next" && to.Outs[i].K == "addrs":
+					for _, ref := range to.Outs[i].Addrs {
+						note(ref, "NextAddresses-in-aborted-tx")
+					}
+				case o.K == "extend" && to.Outs[i].K == "ok":
+					b := uint32(0)
+					if o.Int {
+						b = 1
+					}
+					for idx := uint32(0); idx <= o.N && idx < maxIdx; idx++ {
+						note([]uint32{0, o.Acct, b, idx}, "ExtendAddresses-in-aborted-tx")
+					}
+				case (o.K == "impkey" || o.K == "impscript") && to.Outs[i].K == "addrs":
+					for _, ref := range to.Outs[i].Addrs {
+						note(ref, "Import-in-aborted-tx")
+					}
 				}
 			}
 		}
